@@ -180,6 +180,12 @@ def _sequence(case, ctx):
                     "start_time-query",
                     f"step {k}: Dispatcher.start_time(({jj},{pp}),{mm}) = {got} != {model.start(jj, mm)}",
                 )
+            if b % 3 == 0:
+                # a look-ahead also asks for operations that are not ready yet
+                # (the answers are not specified, the later ones are)
+                for o in d.unscheduled_operations():
+                    for mm in o.machines:
+                        d.start_time(o, mm)
             want_now = model.min_start(model.available(filters))
             ctx.check(
                 d.current_time() == want_now,
@@ -252,6 +258,24 @@ def _sequence(case, ctx):
             f"replay after reset differs at step {k}",
         )
         check_tracking(ctx, inst, d, m2, f"replay after reset step {k}")
+    # a third, different episode on the same dispatcher: what was recorded in
+    # the second one (the list AND its entries) stays what it was
+    kept2 = hist.history
+    kept2_fp = [fp.sop(x) for x in kept2]
+    entries = list(kept2)
+    d.reset()
+    m3 = ref(inst)
+    while not m3.complete():
+        j, p = m3.ready()[-1]
+        mm = inst["machines"][j][p][-1]
+        d.dispatch(drv.op(j, p), mm)
+        m3.apply(j, mm)
+    check_tracking(ctx, inst, d, m3, "third episode (last ready operation first)")
+    ctx.check(
+        [fp.sop(x) for x in entries] == kept2_fp and [fp.sop(x) for x in kept2] == kept2_fp,
+        "recorded-history-lost-on-reset",
+        f"the history recorded in an earlier episode was rewritten by a later one: {[fp.sop(x) for x in entries]} was {kept2_fp}",
+    )
     ctx.label(*gen.inst_labels(inst))
     ctx.label("partial" if steps < n else "complete")
     ctx.nontrivial = steps >= 4 and job_decisive and machine_decisive
